@@ -23,7 +23,31 @@ let seq_case _ line =
   let fuel = int_of_string (String.trim f.(4)) in
   let prog = List.map sinstr_of_string (List.filter (fun x -> String.trim x <> "") (String.split_on_char ';' f.(5))) in
   let st = { regs = Array.to_list regs; mem = Array.to_list mem } in
+  let want_acc = Array.length f > 6 && String.trim f.(6) = "acc" in
   match seq_run (nat_of_int fuel) prog (lookup labels) st with
+  | Done (st', tr) when want_acc ->
+    (* replay the trace to list the memory accesses (kind:addr:size) in program order *)
+    let progv = Array.of_list prog in
+    let acc = Buffer.create 256 in
+    let stc = ref st in
+    List.iter (fun pc ->
+        let i = progv.(int_of_z pc / 4) in
+        let rr = rget !stc.regs in
+        (match load_addrs i rr with
+         | a :: _ as l -> Buffer.add_string acc (Printf.sprintf "l:%d:%d," (int_of_z a) (List.length l))
+         | [] -> ());
+        (match store_addrs i rr with
+         | a :: _ as l -> Buffer.add_string acc (Printf.sprintf "s:%d:%d," (int_of_z a) (List.length l))
+         | [] -> ());
+        (match step prog (lookup labels) !stc pc with
+         | Next (s2, _) -> stc := s2
+         | _ -> ())) (List.rev tr);
+    let rs = List.mapi (fun i v -> (i, int_of_z v)) st'.regs in
+    let rs = List.filter (fun (i, v) -> v <> 0 && i <> 0) rs in
+    let ms = List.mapi (fun i v -> (i, int_of_z v)) st'.mem in
+    let ms = List.filter (fun (i, v) -> v <> int_of_z mem.(i)) ms in
+    let p l = String.concat "," (List.map (fun (a, b) -> Printf.sprintf "%d:%d" a b) l) in
+    Printf.printf "ok steps=%d r=%s m=%s acc=%s\n" (List.length tr) (p rs) (p ms) (Buffer.contents acc)
   | Done (st', tr) ->
     let rs = List.mapi (fun i v -> (i, int_of_z v)) st'.regs in
     let rs = List.filter (fun (i, v) -> v <> 0 && i <> 0) rs in
